@@ -126,7 +126,7 @@ static void c01_run(int tier, long cfg)
   vk_cfg.sched_on = 1;
   vk_cfg.sched_bound = 2;
   vk_cfg.vlimit = 32;
-  if (tier) {
+  if (tier || cfg < na) {
     vk_cfg.faults_on = 1;
     vk_cfg.fault_bound = 1;
     vk_cfg.fault_calls = (1ull << C_WAITPID) | (1ull << C_POLL) | (1ull << C_KILL);
@@ -166,8 +166,13 @@ static void c01_run(int tier, long cfg)
       case OP_WAIT0: r = hx_wait(P, 0); api = hx_last_api; check_status_result("wait(0)", r, api); break;
       case OP_WAIT2: r = hx_wait(P, 2); api = hx_last_api; check_status_result("wait(2)", r, api); break;
       case OP_WAITINF: r = hx_wait(P, REPROC_INFINITE); api = hx_last_api; check_status_result("wait(INFINITE)", r, api); break;
-      case OP_TERM: r = hx_terminate(P); break;
-      case OP_KILL: r = hx_kill(P); break;
+      case OP_TERM:
+      case OP_KILL:
+        r = ops[i] == OP_TERM ? hx_terminate(P) : hx_kill(P);
+        if (first_status >= 0 && (r != 0 || vk_count_calls(hx_last_api, C_KILL)))
+          vk_violation("C06", "after-reap-noop", "h_c01", "%s after a successful wait returned %s and made %d kill call(s)", op_names[ops[i]],
+                       hx_errname(r), vk_count_calls(hx_last_api, C_KILL));
+        break;
       case OP_STOP_W0: {
         reproc_stop_actions a = { { REPROC_STOP_WAIT, 0 }, { REPROC_STOP_NOOP, 0 }, { REPROC_STOP_NOOP, 0 } };
         r = hx_stop(P, a); api = hx_last_api; check_status_result("stop{wait 0}", r, api); break;
@@ -217,6 +222,13 @@ static void c01_run(int tier, long cfg)
   if (!(w < 0 && errno == ECHILD)) vk_violation("C01", "no-zombie", "h_c01", "the child is still waitable after the status was returned");
   if (vk_bad_waits) vk_violation("C01", "second-reap", "h_c01", "%d waitpid call(s) on an already reaped or foreign pid", vk_bad_waits);
   if (vk_reap_blocked) vk_violation("C01", "reap-blocked", "h_c01", "a blocking reap was attempted while the child was still running");
+  /* C06 clauses over the same histories */
+  if (vk_bad_kills || vk_bad_waits)
+    vk_violation("C06", "kill-wait-target", "h_c01", "%d kill and %d waitpid call(s) targeted something other than the live, unreaped child of the handle",
+                 vk_bad_kills, vk_bad_waits);
+  for (int i = 0; i < CH->nsigs; i++)
+    if (CH->reap_time && CH->sigs[i].child_state == CH_REAPED)
+      vk_violation("C06", "signal-after-reap", "h_c01", "signal %d was sent after the child had been reaped", CH->sigs[i].sig);
 }
 
 const struct hx_harness h_c01 = { "C01", "h_c01", c01_nconfigs, c01_run, c01_clauses, NULL };
